@@ -16,9 +16,17 @@ cursor at END OF INPUT (std ≥ 1.80), so a swallowed short read is followed by 
 
 Allocation patterns of the Rust code each have their own named combinator so that C06 can
 re-interpret them with allocation logging:
-* `bytesN`/`vecBytes` … `vec![0; n]` + `read_exact`
-* `listCap` … `Vec::with_capacity(n)` + push loop;  `listPush` … `Vec::new()` + push loop
-  (identical here).
+* `vecBytes n` … `vec![0; n]` + `read_exact` (via `varBytes`, `u8Bytes`, `assocDec`, `policyOpt`,
+  Authch, Reject);  `bytesN n` … fixed `[u8; n]` / `Hash256` / 6-byte short ids
+* `listCap` … `Vec::with_capacity(n)` + push loop;  `listPush` … `Vec::new()` + push loop;
+  `listMax` … count checked against a limit first;  `listTry` … `if let Ok(n) = var_int::read`
+  (all four decode with `decN`, one element per iteration).
+
+Laws (`CG.Proofs.WireCodec`): `Lawful c` — `dec (enc a ++ r) = ok (a, r)` for `wf a`,
+`(enc a).length = size a`, `dec b = ok (a, r) → wf a`, `dec b = ok (a, r) → ∃ p, b = p ++ r`;
+`LawfulEnd c` — the same with `r = []` only, for codecs whose last field is optional
+(`assocOpt`, `policyOpt`).  Every combinator has a `…_lawful` lemma, so the lawfulness proof of a
+message codec is the same expression as its definition with `_lawful` appended.
 -/
 namespace CG.Model.Wire
 open CG
@@ -167,8 +175,9 @@ def bytesN (n : Nat) : Codec Bytes where
   wf a := a.length = n
   wfDec _ := inferInstanceAs (Decidable (_ = _))
 
-/-- `vec![0; n]` + `read_exact` where `n` came off the wire (allocation site for C06). -/
-def vecBytes (n : Nat) : Codec Bytes := bytesN n
+/-- `vec![0; n]` + `read_exact` into a `Vec<u8>` field (allocation site for C06); `size()` of such
+    a field is its `len()`. -/
+def vecBytes (n : Nat) : Codec Bytes := { bytesN n with size := fun a => a.length }
 
 /-- the ignored per-header transaction-count byte of `headers`: written as `0`, read with
     `let _ = reader.read_u8();` (any value, and its absence at end of input, are accepted). -/
@@ -194,7 +203,7 @@ def dpair {α β} (ca : Codec α) (cb : α → Codec β) : Codec (α × β) wher
 
 def pair {α β} (ca : Codec α) (cb : Codec β) : Codec (α × β) := dpair ca (fun _ => cb)
 
-infixr:60 " ⊗ " => pair
+scoped infixr:60 " ⊗ " => pair
 
 /-- change of representation along `f : α → β` with partial inverse `g` (structure ↔ tuple,
     `Message` variant ↔ payload, dropping a redundant length). -/
